@@ -136,6 +136,7 @@ fn run_exactlen(honour: bool) {
     let mut ended = false;
     let mut errored = false;
     let mut said_eos = false;
+    let mut first_err_injected = false;
     let mut polls = 0;
     // K scripted events + default tail + end + 3 more polls after the terminal event (C20)
     while polls < K + 5 {
@@ -176,6 +177,9 @@ fn run_exactlen(honour: bool) {
                 if honour {
                     assert!(!said_eos, "C12: error after is_end_stream()");
                 }
+                if !errored {
+                    first_err_injected = unsafe { INJECTED } > 0;
+                }
                 errored = true;
             }
             Poll::Ready(None) => {
@@ -210,8 +214,8 @@ fn run_exactlen(honour: bool) {
         assert!(ended || errored, "body did not terminate within the poll bound");
     }
     kani::cover!(ended && !errored && total == len && len > 0, "clean end");
-    kani::cover!(errored && unsafe { INJECTED } > 0, "length mismatch reported");
-    kani::cover!(errored && unsafe { INJECTED } == 0, "entity error passed through");
+    kani::cover!(errored && (honour || first_err_injected), "length mismatch reported");
+    kani::cover!(errored && !first_err_injected, "entity error passed through");
 }
 
 #[kani::proof]
